@@ -882,7 +882,9 @@ class World:
             self.stats["expunge_proper_subset"] += 1
         return r, gone, n_exp
 
-    async def op_copy(self, ss, spec, dst, uid_mode=False, move=False):
+    async def op_copy(self, ss, spec, dst, uid_mode=False, move=False, star=None):
+        """star (UID mode only): write the set with `*` -- "tail": `<lowest of spec>:*`, spec being every
+        UID from there on; "only": `*`, spec being the highest UID."""
         b = self.boxes[ss.selected]
         await self.learn_uids(b)
         if not uid_mode:
@@ -892,6 +894,14 @@ class World:
         targets = self.addressed(ss, spec, uid_mode)
         verb = ("UID " if uid_mode else "") + ("MOVE" if move else "COPY")
         text = f"{verb} {self.fmt_set(spec)} {wire_name(dst)}"
+        if star and uid_mode and spec and all(m.uid is not None for m in b.msgs):
+            us_ = [m.uid for m in b.msgs]
+            if star == "tail" and sorted(spec) == [u for u in us_ if u >= min(spec)]:
+                text = f"{verb} {min(spec)}:* {wire_name(dst)}" if len(spec) % 2 else f"{verb} *:{min(spec)} {wire_name(dst)}"
+                self.stats["uid_copy_move_with_star"] += 1
+            elif star == "only" and list(spec) == [max(us_)]:
+                text = f"{verb} * {wire_name(dst)}"
+                self.stats["uid_copy_move_with_star"] += 1
         d = self.boxes.get(dst)
         r = await self._cmd(ss, text)
         if r.status == "NO" and "pending" in (r.tagged.text or "").lower() and not uid_mode:
@@ -921,7 +931,7 @@ class World:
         if len(src_u) != len(dst_u):
             self.viol(["C05", "C02"], "copyuid-length-mismatch", f"{text}: {code}")
         if src_u != [t.uid for t in targets]:
-            self.viol(["C05", "C15"], "copyuid-sources-differ", f"{text}: COPYUID sources {src_u}, addressed {[t.uid for t in targets]}")
+            self.viol(["C05", "C15", "C03"], "copyuid-sources-differ", f"{text}: COPYUID sources {src_u}, addressed {[t.uid for t in targets]}")
         if any(a >= c for a, c in zip(dst_u, dst_u[1:])):
             self.viol(["C02"], "copyuid-destinations-not-ascending", f"{code}")
         new = []
